@@ -164,11 +164,14 @@ def atoms_order_shortcuts(repo):
     if not (isinstance(m, ast.Call) and isinstance(m.func, ast.Name) and m.func.id == '_morgan' and len(m.args) == 2):
         raise TranslatorError('Morgan.atoms_order: expected `return _morgan({…}, self.int_adjacency)`')
     a0 = ' '.join(ast.unparse(m.args[0]).split())
-    if a0 != '{n: hash(a) for n, a in self.atoms()}' or ast.unparse(m.args[1]) != 'self.int_adjacency':
+    if a0 not in ('{n: hash(a) for n, a in self.atoms()}', '{n: hash(a) for n, a in self._atoms.items()}') \
+            or ast.unparse(m.args[1]) != 'self.int_adjacency':
         raise TranslatorError('Morgan.atoms_order: unexpected arguments of _morgan: ' + ast.unparse(m))
     ia = _find(tree, 'Morgan.int_adjacency')
     v = ' '.join(ast.unparse(_single_return(ia, 'Morgan.int_adjacency')).split())
-    if v != '{n: {m: hash(b) for m, b in mb.items()} for n, mb in self._bonds.items()}':
+    # hash(b), int(b) and b.order are the same number for a Bond (Bond.__hash__/__int__ return self.order; checked above / K)
+    if v not in ('{n: {m: %s for m, b in mb.items()} for n, mb in self._bonds.items()}' % e
+                 for e in ('hash(b)', 'int(b)', 'b.order')):
         raise TranslatorError('Morgan.int_adjacency: unexpected body: ' + v)
     return single
 
